@@ -83,3 +83,15 @@ Proof.
   rewrite (nth_indep _ false true) by (rewrite repeat_length; lia). rewrite nth_repeat.
   cbn [Z.b2z]. f_equal. f_equal. lia.
 Qed.
+
+(** rank on the bitmap [Of] builds from ascending positions = the number of listed positions below [i]
+    (a corollary of C12's [Of_query_ascending], restated for every flavour) *)
+Theorem rank_Of ps opt : Sorted.StronglySorted Z.lt ps -> (forall p, In p ps -> 0 <= p) ->
+  exists r, Of ps opt = Some r /\
+    forall f i, 0 <= i < 64 * zlen r -> query f r i = Some (count_below ps i, Z.b2z (member ps i)).
+Proof.
+  intros Hs Hp. destruct (Of_query_ascending ps opt Hs Hp) as (r & HO & _ & Hq).
+  exists r. split; [exact HO|]. intros [tr|] i Hi; cbn [query].
+  - destruct (Hq i (64 * zlen r) tr ltac:(lia) ltac:(lia) ltac:(lia) ltac:(lia)) as (R & _). exact R.
+  - destruct (Hq i (64 * zlen r) false ltac:(lia) ltac:(lia) ltac:(lia) ltac:(lia)) as (_ & R & _). exact R.
+Qed.
